@@ -55,6 +55,9 @@ def run(job, timeout=300):
     env["PYTHONPATH"] = REPO
     env.setdefault("NUMBA_CACHE_DIR", os.path.join(VERIF, ".numba_cache"))
     env["PYTHONWARNINGS"] = "ignore"
+    # pure-Python mode of TidalPy (njit becomes the identity): no stale numba cache after a source change, no compile time;
+    # "numba preserves the CPython semantics of these bodies" is a listed assumption of every check
+    env["NUMBA_DISABLE_JIT"] = "1"
     try:
         p = subprocess.run([VENV_PY, "-c", _DRIVER], input=json.dumps(job), capture_output=True, text=True,
                            timeout=timeout, env=env, cwd=VERIF)
